@@ -958,8 +958,9 @@ for k in ('C15', 'C18', 'C20'):
 
 
 def hash_obs(tier):
-    lens = (0, 1, 3, 4, 5, 8, 12, 13, 15, 16, 17, 20, 31, 32, 33)
-    return [Ob('hash.murmur3.len%d' % n, 'harness/h_hash.c', 'h_murmur3', ['cmdline/util.c'], defs={'HASH_LEN': n}, unwind=40, solver=KISSAT, timeout=7200, mem=6, cost=100, tier='thorough',
+    # 16, 17, 31, 33 (and 4, 8, 13) were dropped after a thorough run on a loaded machine: 16 did not finish in 2 hours, the others took 25-65 minutes each
+    lens = (0, 1, 3, 5, 12, 15, 20, 32)
+    return [Ob('hash.murmur3.len%d' % n, 'harness/h_hash.c', 'h_murmur3', ['cmdline/util.c'], defs={'HASH_LEN': n}, unwind=40, solver=KISSAT, timeout=10800, mem=6, cost=100, tier='thorough',
                kind='bounded', bound='length %d bytes, every content and every 16-byte seed' % n, native_libs=[],
                functions=['MurmurHash3_x86_128 (cmdline/murmur3.c)', 'memhash (cmdline/util.c)'])
             for n in lens]
@@ -1104,7 +1105,7 @@ PROPS['C19'].update(
 PROPS['C16'].update(
     explanation='Format stability is decided as "every constant and encoding equals a definition that is NOT in the repository": parity coefficients and every lookup table (table-free GF(2^8) spec, documented Cauchy / power matrix, all indices); CRC-32C tables == reflected 0x82F63B78 and the checksum function; the variable-length integer / little-endian / string codecs (all values); the nanosecond field encoding; the block layout rule of a file (block sizes 2^10..2^24); the split-parity address map; and main() switches the engine to the mode the configuration selects (z-parity = Vandermonde third row) after reading it. Any self-consistent change of one of them (which the suite cannot see, since it creates its arrays with the binary under test) fails a named obligation.',
     trusted_base=['spec/gf_spec.h, the bitwise CRC and varint specifications in the drivers'],
-    assumptions=['MurmurHash3_x86_128 is pinned to an independently organised transcription of the published algorithm for all contents and seeds at 15 lengths (0..33) in the THOROUGH tier only (about 20 minutes per length: an equivalence of two multiplier-heavy programs); in the quick tier, and for SpookyHash V2 / MetroHash in both tiers, the block hash functions are NOT pinned', 'record letters and header bytes of the content file are not pinned'],
+    assumptions=['MurmurHash3_x86_128 is pinned to an independently organised transcription of the published algorithm for all contents and seeds at 8 lengths (0, 1, 3, 5, 12, 15, 20, 32) in the THOROUGH tier only (2 to 40 minutes per length: an equivalence of two multiplier-heavy programs; lengths 16, 17, 31, 33 did not finish reliably and were dropped); in the quick tier, and for SpookyHash V2 / MetroHash in both tiers, the block hash functions are NOT pinned', 'record letters and header bytes of the content file are not pinned'],
     not_covered=['cmdline/murmur3.c, spooky2.c, metro.c', 'content header / record tags', 'reference arrays of earlier versions (those are tests, not this technique)'])
 PROPS['C04'].update(
     explanation='Detection logic only: blockcmp (check/fix) accepts iff digest and padding match; the hash region of sync and the book-keeping region of scrub classify a mismatch on a synced block as a silent error and mark exactly that stripe bad (keeping time and other marks), classify differences on unsynced blocks as plain errors that leave the books alone, and refresh / clear marks only for stripes verified correct; scrub selects bad stripes in every plan. The relation is always "whenever the digest differs" (memhash is an arbitrary function here; collision freedom is not assumed).',
